@@ -489,6 +489,8 @@ fn resolve_non_null<'a>(
                     .collect::<Vec<_>>();
                 resolve_list(schema, ctx, type_ref, &values).await
             }
+            // a null item of a list type (`[[Int]]`): `FieldValue::NULL` is the only way to return it
+            (TypeRef::List(_), Some(FieldValue(FieldValueInner::Value(Value::Null)))) => Ok(None),
             (TypeRef::List(_), Some(_)) => Err(ctx.set_error_path(
                 Error::new("internal: expects an array").into_server_error(ctx.item.pos),
             )),
